@@ -54,12 +54,10 @@ fn stale(it: &mut Interp, info: &mut StepInfo, kind: u8, which: u16) {
                 for s in [Surf::Raw, Surf::Raii, Surf::Io] {
                     v.push(("read", outcome(&a.read(h, &mut buf, s)), None));
                     v.push(("write", outcome(&a.write(h, b"stale", s)), None));
-                    if s != Surf::Io {
-                        // zero-length transfers are still calls on the handle (the embedded-io
-                        // adapters document an early return for empty buffers)
-                        v.push(("read", outcome(&a.read(h, &mut [], s)), None));
-                        v.push(("write", outcome(&a.write(h, b"", s)), None));
-                    }
+                    // zero-length transfers are still calls on the handle (embedded-io allows
+                    // `Ok(0)` *or an error* for an empty buffer; the property asks for the error)
+                    v.push(("read", outcome(&a.read(h, &mut [], s)), None));
+                    v.push(("write", outcome(&a.write(h, b"", s)), None));
                     v.push(("flush_file", outcome(&a.flush(h, s)), None));
                     v.push(("file_seek_from_start", outcome(&a.seek_start(h, 0, s)), None));
                     v.push(("file_seek_from_current", outcome(&a.seek_cur(h, 0, s)), None));
@@ -72,6 +70,10 @@ fn stale(it: &mut Interp, info: &mut StepInfo, kind: u8, which: u16) {
                 v.push(("Seek::seek(Current, +2^32)", outcome(&a.io_seek(h, 2, 1i64 << 32)), None));
                 v.push(("Seek::seek(Current, -2^32)", outcome(&a.io_seek(h, 2, -(1i64 << 32))), None));
                 v.push(("Seek::seek(Current, i64::MIN)", outcome(&a.io_seek(h, 2, i64::MIN)), None));
+                // arguments that are themselves out of range: the handle is judged first
+                v.push(("Seek::seek(Start, 2^32)", outcome(&a.io_seek(h, 0, 1i64 << 32)), None));
+                v.push(("Seek::seek(End, +1)", outcome(&a.io_seek(h, 1, 1)), None));
+                v.push(("Seek::seek(End, i64::MIN)", outcome(&a.io_seek(h, 1, i64::MIN)), None));
                 v.push(("file_eof", outcome(&a.eof(h, Surf::Raw)), None));
                 v.push(("file_length", outcome(&a.length(h, Surf::Raw)), None));
                 v.push(("file_offset", outcome(&a.offset(h, Surf::Raw)), None));
@@ -255,6 +257,10 @@ fn reenter(it: &mut Interp, info: &mut StepInfo, d: u16, lfn: bool, at: u8) {
                 results.push(("Seek::seek(Current, +2^32)", outcome(&a.io_seek(f, 2, 1i64 << 32))));
                 results.push(("Seek::seek(Current, -2^32)", outcome(&a.io_seek(f, 2, -(1i64 << 32)))));
                 results.push(("Seek::seek(Current, i64::MAX)", outcome(&a.io_seek(f, 2, i64::MAX))));
+                results.push(("Seek::seek(Start, 2^32)", outcome(&a.io_seek(f, 0, 1i64 << 32))));
+                results.push(("Seek::seek(End, +1)", outcome(&a.io_seek(f, 1, 1))));
+                results.push(("Read::read(empty)", outcome(&a.read(f, &mut [], Surf::Io))));
+                results.push(("Write::write(empty)", outcome(&a.write(f, b"", Surf::Io))));
                 let mut buf = [0u8; 8];
                 results.push(("Read::read", outcome(&a.read(f, &mut buf, Surf::Io))));
                 results.push(("Write::write", outcome(&a.write(f, b"x", Surf::Io))));
